@@ -268,10 +268,11 @@ PickSvc ==
   /\ opc' = "routes" /\ UNCHANGED <<mounts, srvOps, doc3, doc2, verdicts>>
 PickRoutes ==
   /\ opc = "routes" /\ NM < NMeth
-  /\ \E v1 \in Verb1s, pk \in PathParamKinds : \E v2 \in Verb2s(v1) :
+  \* (the second route of an endpoint has its own path, or the path of the first under another verb)
+  /\ \E v1 \in Verb1s, pk \in PathParamKinds : \E v2 \in Verb2s(v1) : \E samepath \in (IF v2 = "none" THEN {FALSE} ELSE BOOLEAN) :
        LET lit == CurSvc.name \o MethNames[NM + 1]
            r1 == [verb |-> v1, path |-> RoutePath(lit, pk)]
-           r2 == [verb |-> v2, path |-> RoutePath(lit \o "b", pk)] IN
+           r2 == [verb |-> v2, path |-> RoutePath(IF samepath THEN lit ELSE lit \o "b", pk)] IN
        design' = [design EXCEPT !.svcs[NS].meths = Append(@, [name |-> MethNames[NM + 1], routes |-> IF v2 = "none" THEN <<r1>> ELSE <<r1, r2>>,
                                                                 params |-> <<>>, body |-> "none", bxb |-> FALSE, resps |-> <<200>>, errs |-> <<>>, sec |-> "inherit"])]
   /\ opc' = "params" /\ UNCHANGED <<mounts, srvOps, doc3, doc2, verdicts>>
